@@ -143,7 +143,11 @@ func numInt(s string) (*big.Int, bool) {
 func (v V) InModel() bool {
 	switch v.Kind {
 	case Num:
-		_, ok := numInt(v.N)
+		n, ok := numInt(v.N)
+		// negative zero is a float64 the integers of the model cannot tell from 0 (Go prints it as -0)
+		if ok && n.Sign() == 0 && strings.HasPrefix(v.N, "-") {
+			return false
+		}
 		return ok
 	case Arr:
 		for _, x := range v.A {
